@@ -95,4 +95,18 @@ theorem pgraph_recompress_isCompressed {U : Table D} {K : Nat} {st : Bool} {join
   have e2 := hpathU Y k _ p hpy hpk qy.1 (List.mem_map_of_mem hqy) h2
   omega
 
+/-- the sharded pipeline's final graph passes `is_compressed` -/
+theorem sharded_result_isCompressed {R : Table D} {K : Nat} {st : Bool} (wfR : WF R K st) (hesR : ExtSym2 R st)
+    (Ts : List (Table D)) (sw : Sandwich st Ts.flatten R) (reduce : D → D → D)
+    (join0 : D → D → Bool) (hj0 : ∀ a b, join0 a b = join0 b a) :
+    ∃ outs g' paths, AllBuilt st join0 reduce Ts outs ∧
+      compressGraph st (⟨K, (outs.map fun o => o.map (·.1)).flatten, st⟩ : G D) (fun _ _ => true) reduce [] = some (g', paths) ∧
+      isCompressed g' (fun _ _ => true) = none := by
+  have wfU := sandwich_wf wfR sw
+  have hesU := sandwich_extSym2 wfR hesR sw
+  obtain ⟨outs, hb, hp⟩ := allBuilt_of_tables (K := K) join0 hj0 reduce Ts wfU hesU
+  obtain ⟨port, mem, lk, pg⟩ := pgraph_flatten K st join0 Ts _ hp wfU
+  obtain ⟨g', paths, hcg, hic⟩ := pgraph_recompress_isCompressed pg wfU hesU reduce
+  exact ⟨outs, g', paths, hb, hcg, hic⟩
+
 end Compress
